@@ -331,7 +331,7 @@ def check(run, replay=None):
     if not os.environ.get("VERIF_ASAN_RERUN"):
         from .. import sched_kernels
         sched_kernels.attach(run, ["score", "score_and_refine", "refine_assigned"], 24 if run.tier == "quick" else 240,
-                             [[1, 0], [2, 1], [4, 1], [8, 1]], "closest")
+                             [[1, 0], [2, 4], [4, 4], [8, 1]], "closest")
         run.require_counter("sched_determinism_comparisons", 20)
     run.require_counter("refined_matrices_checked", 100)
     run.require_counter("singular_cases", 10)
